@@ -224,12 +224,20 @@ def reopen_oracle(case, recs):
     want = recs[at - 1]["full"]
     ops = case["ops"]
     judged = False
+    # a handle on an explicit selection of the record's files (e.g. an older commit state) is not what a reopen
+    # by name shows, and patching it is not "continue or start a new patch of the record": only the reopen of
+    # *its* file list, read-only, is judged then
+    name = case.get("name", "foo")
+    mine = sorted(f for f in recs[at]["before"] if belongs_to(f, name) and f.endswith(".ih5"))
+    selection = sorted(recs[at - 1].get("files") or []) != mine
     for j in range(at + 1, len(ops)):
         op = ops[j]
         if op[0] not in ("open", "openperm"):
             continue
         r = recs[j]
         mode = op[2]
+        if selection and (op[0] == "open" or mode != "r"):
+            continue
         judged = True
         how = "name" if op[0] == "open" else "perm%d" % op[3]
         if r["out"] != "ok":
@@ -326,7 +334,7 @@ def ub_make(spec):
     """Pre-pass (real code): the bytes of a small file after `IH5UserBlock.save` (spec t=save: over zeros, or
     over an older block `old` saved first), or hand-made bytes (t=raw). Returns the `ub` case."""
     if spec["t"] == "raw":
-        return dict(kind="ub", hex=spec["hex"], saved=None, how="raw:" + spec.get("label", ""))
+        return dict(kind="ub", hex=spec["hex"], saved=None, how="raw", label=spec.get("label", ""))
     d = tempfile.mkdtemp(prefix="vt_ub_")
     try:
         path = os.path.join(d, "c.ih5")
@@ -595,6 +603,8 @@ def gen_reopen(rng, n_ops):
         while j < len(hist) and hist[j][0] != "close":
             j += 1
         ops = hist[:j]
+        if any(o[0] == "open" and o[3] == "l" for o in ops[i + 1:]):
+            continue  # the by-name open was refused and an explicit selection of files was opened instead
         c = hist[i][1]
         name = hist[i][4]
         # guess the number of files from the ops (exact when nothing failed)
